@@ -367,6 +367,54 @@ def boundary_safe_slices(tc):
     return out
 
 
+def peeked_next_unwraps(tc):
+    """{fn qual: n} - `ps.next().unwrap()` sites where the cursor call that textually precedes it is a look-ahead that is known to
+    have found a character (`ps.peek()?`, `let Some(..) = ps.peek() else ..`, `while ps.peek().map_or(false, ..)`, ..): the
+    character is still there"""
+    out = {}
+    CUR = ("peek", "peek_n", "peek_str", "peek_chars", "next", "skip_bytes", "skip_whitespace", "skip_whitespace_with_js_comments", "consume_str",
+           "consume_str_except_followed", "consume_str_except_followed_char", "skip_until_before", "skip_until_after", "next_char_as_str", "try_parse")
+    for f in tc.fns:
+        if not f.body or "parse" not in f.module:
+            continue
+        order = list(sir.walk(f.body))
+        pm = None
+        cur = [(i, n) for i, n in enumerate(order) if n.get("k") == "mcall" and n["m"] in CUR and n["recv"].get("k") == "path" and n["recv"]["segs"] in (["ps"], ["self"])]
+        k = 0
+        for j, (i, n) in enumerate(cur):
+            if n["m"] != "next" or j == 0:
+                continue
+            pm = pm or sir.parent_map(f.body)
+            par = pm.get(id(n))
+            if not (par is not None and par.get("k") == "mcall" and par["m"] in ("unwrap", "expect") and par["recv"] is n):
+                continue
+            prev = cur[j - 1][1]
+            if not prev["m"].startswith("peek"):
+                continue
+            # the look-ahead is known to have succeeded
+            a, okp = prev, False
+            for _ in range(4):
+                a_par = pm.get(id(a))
+                if a_par is None:
+                    break
+                kk = a_par.get("k")
+                if kk == "try" or (kk == "let" and "Some" in sir.pat_str(a_par["pat"])) or (kk == "local" and a_par.get("else") is not None and "Some" in sir.pat_str(a_par["pat"])):
+                    okp = True
+                if kk == "mcall" and a_par["m"] in ("map_or", "is_some_and") and (a_par["m"] == "is_some_and" or (a_par["args"] and a_par["args"][0].get("v") is False)):
+                    okp = True
+                if kk == "binary" and a_par["op"] == "==" and any(sir.expr_str(x).startswith("Some(") for x in (a_par["l"], a_par["r"])):
+                    okp = True
+                if kk == "match" and a_par["e"] is a:
+                    okp = any("Some" in sir.pat_str(arm["pat"]) and any(x is n for x in sir.walk(arm["body"])) for arm in a_par["arms"])
+                a = a_par
+            if okp:
+                k += 1
+        if k:
+            for q in {f.qual, "::".join(list(f.module) + [f.name])}:
+                out[q] = k
+    return out
+
+
 def classified_sites(ctx):
     """potential panic sites per (crate, function, kind), after the mechanical discharges (covered unreachable arms, boundary-safe slices)"""
     sites = panic_sites(ctx.mir)
@@ -381,6 +429,14 @@ def classified_sites(ctx):
             sites[(crate, root, cat)] = sites[(crate, root, cat)][n_:]
             if not sites[(crate, root, cat)]:
                 del sites[(crate, root, cat)]
+    for q, n_ in peeked_next_unwraps(ctx.tc).items():
+        key_ = ("template", q, "unwrap")
+        if key_ in sites and n_ > 0:
+            take = min(n_, len(sites[key_]))
+            sites[("template", q, "unwrap:peeked")] = sites[key_][:take]
+            sites[key_] = sites[key_][take:]
+            if not sites[key_]:
+                del sites[key_]
     for idx_, cname in ((ctx.tc, "template"), (ctx.sc, "stylesheet")):
         for q, n_ in boundary_safe_slices(idx_).items():
             for cat in ("index:str", "index:String"):
@@ -406,7 +462,7 @@ def panic_rule(ctx):
     # compared per (crate, kind) over the whole crate first, and per function only to say where a surplus appeared.
     now_tot, rev_tot = {}, {}
     for (crate, root, cat), spans in sites.items():
-        if cat not in ("unwrap:fmt", "panic:covered", "index:boundary"):
+        if cat not in ("unwrap:fmt", "panic:covered", "index:boundary", "unwrap:peeked"):
             now_tot[(crate, cat)] = now_tot.get((crate, cat), 0) + len(spans)
     for r in table:
         rev_tot[(r["crate"], r["kind"])] = rev_tot.get((r["crate"], r["kind"]), 0) + r["count"]
@@ -420,6 +476,9 @@ def panic_rule(ctx):
         key = "C01.panic/%s/%s/%s" % (crate, root, cat)
         if cat == "index:boundary":
             obs.append(ob(key, True, spans[0], "%d string slice(s) bounded by `find`/`rfind`/`len` of the same string: in range and on a character boundary by construction" % len(spans)))
+            continue
+        if cat == "unwrap:peeked":
+            obs.append(ob(key, True, spans[0], "%d `ps.next().unwrap()` directly behind a look-ahead that found a character: the character is still there" % len(spans)))
             continue
         if cat == "panic:covered":
             obs.append(ob(key, True, spans[0], "%d `_ => unreachable!()` arm(s) of an inner match whose other arms list every variant the enclosing arm admits (cannot be taken)" % len(spans)))
